@@ -17,6 +17,10 @@ if '--tier' in sys.argv:
 skip_tests = '--skip-tests' in sys.argv
 meta = json.load(open(os.path.join(d, 'meta.json')))
 prop = meta['property']
+if meta.get('obsolete'):
+    print(json.dumps({'seeded': os.path.basename(d), 'property': prop,
+                      'obsolete': True, 'applies': True, 'caught': None}))
+    sys.exit(0)
 name = os.path.basename(d)
 wt = f'/tmp/wt-verify-{name}-{os.getpid()}'
 
